@@ -86,7 +86,8 @@ pub fn run(seed: u64, thorough: bool) {
         let life0 = lifetime(shape.hash, &persisted);
         oracle("fresh_lifetime", life0 == Out::Ok(total), "a fresh key must report the product of its tree sizes", shape, 0, "");
         // the model re-signs every step of the cheap shapes and a stride of the expensive ones
-        let model_every = if shape.sign_cost() < 1.0 || thorough { 1 } else { (shape.sign_cost() * total as f64 / 60.0).ceil() as u64 };
+        let budget = if thorough { 600.0 } else { 60.0 };
+        let model_every = if shape.sign_cost() < 1.0 && !thorough { 1 } else { ((shape.sign_cost() * total as f64 / budget).ceil() as u64).max(1) };
         let max_steps = (total as usize) * 2 + 12;
         let mut step = 0usize;
         while step < max_steps {
